@@ -37,7 +37,7 @@ class C02(Prop):
                     break
                 path, _v = rng.choice(nodes)
                 v = gen_value(rng)
-                ops.append(["set", X.render(cur, path, rng), v])
+                ops.append(["set", X.render(cur, path, rng), v] + (["plain"] if isinstance(v, (dict, list)) and rng.random() < 0.4 else []))
                 paths.append(list(path))
                 cur = X.ref_set(cur, path, v)
             if ops:
@@ -69,7 +69,7 @@ class C02(Prop):
         ref = copy.deepcopy(i["tree"])
         fail = None
         for op, path in zip(i["ops"], i["paths"]):
-            v = X.value_of(op[2])
+            v = X.set_value(op)
             obj[op[1]] = v
             ref = X.ref_set(ref, path, op[2])
             if fail is None:
